@@ -235,6 +235,11 @@ pub fn run_line(line: &str, out: &mut String) {
                     if name == "upgrade" || ((name == "poll") && (t == "N" || text == "N")) {
                         line.push_str(" ok:endspec=0");
                     }
+                    // C02, second sentence: a subscriber is never left suspended while an update it
+                    // has not observed, or the end of its stream, is available
+                    if name == "poll" && text == "P" {
+                        line.push_str(" ok:nosuspend=0");
+                    }
                 }
                 if *wakes_all {
                     for (k, was) in registered_before.iter().enumerate() {
